@@ -21,7 +21,7 @@ type Prop struct{}
 func (Prop) ID() string    { return "C20" }
 func (Prop) Level() string { return "exploration" }
 func (Prop) Rule() string {
-	return "lifecycle: every list of <= N components (N=5 quick, 7 thorough), each plain or runnable, x every single failure point (none, Init of i, Run of runnable i) x close-error mask variant, enumerated exhaustively; a case is non-trivial when at least one runnable component exists; distinct = (kinds, failure point, variant). nesting: every assignment of names {a,b,c} subsets to container levels of depth <= 3 (4 thorough), every name looked up from every level. restart: every list of <= 4 (5 thorough) components with at least one runnable x every pair (f1, f2) of single failure points or none: the same container goes through epoch 1 (fault f1, or Start+Close), epoch 2 (fault f2, or Start+Close) and epoch 3 (Start+Close); every epoch must show exactly the call order of a fresh container."
+	return "lifecycle: every list of <= N components (N=5 quick, 7 thorough), each plain or runnable, x every single failure point (none, Init of i, Run of runnable i) x close-error mask variant, enumerated exhaustively; a case is non-trivial when at least one runnable component exists; distinct = (kinds, failure point, variant). nesting: every assignment of names {a,b,c} subsets to container levels of depth <= 3 (4 thorough), every name looked up from every level, once after half of the registrations and again after the rest (a container must not remember an answer a parent gave before a nearer registration). restart: every list of <= 4 (5 thorough) components with at least one runnable x every pair (f1, f2) of single failure points or none: the same container goes through epoch 1 (fault f1, or Start+Close), epoch 2 (fault f2, or Start+Close) and epoch 3 (Start+Close); every epoch must show exactly the call order of a fresh container."
 }
 func (Prop) Assumptions() []string {
 	return []string{"Close(ctx) is called once after every successful Start and never after a failed one", "a component registered concurrently with Start (workload late-register) may or may not be started, but is never run without having been initialised"}
@@ -372,18 +372,34 @@ func runNesting(c *lib.Case) {
 	var inits []string
 	root := new(app.App)
 	cur := root
-	for lvl, names := range nc.levels {
+	for lvl := range nc.levels {
 		if lvl > 0 {
 			cur = cur.ChildApp()
 		}
-		for _, n := range names {
-			if n == "a" {
-				cur.Register(&namedA{named{name: n, level: lvl, inits: &inits}})
+		apps = append(apps, cur)
+	}
+	register := func(lvl int, n string) {
+		if n == "a" {
+			apps[lvl].Register(&namedA{named{name: n, level: lvl, inits: &inits}})
+		} else {
+			apps[lvl].Register(&named{name: n, level: lvl, inits: &inits})
+		}
+	}
+	// Registration happens in two rounds with a full round of lookups after each: a name that was answered
+	// by a parent in round one may be registered locally (or by a nearer ancestor) in round two and must then
+	// resolve to the nearer one - the container must not remember earlier answers
+	// (added after seeded change C20-5 - a per-container lookup cache - was missed).
+	regOrder := make([][]string, len(nc.levels))
+	var later [][2]any
+	for lvl, names := range nc.levels {
+		for i, n := range names {
+			if (c.Index+lvl+i)%2 == 0 {
+				register(lvl, n)
+				regOrder[lvl] = append(regOrder[lvl], n)
 			} else {
-				cur.Register(&named{name: n, level: lvl, inits: &inits})
+				later = append(later, [2]any{lvl, n})
 			}
 		}
-		apps = append(apps, cur)
 	}
 	c.Eval(1)
 	desc := fmt.Sprint(nc.levels)
@@ -412,58 +428,74 @@ func runNesting(c *lib.Case) {
 		}
 		return -2
 	}
-	for lvl, a := range apps {
-		for _, n := range []string{"a", "b", "c", "zz"} {
-			want := -1
+	checkLookups := func(round string, levels [][]string) {
+		for lvl, a := range apps {
+			for _, n := range []string{"a", "b", "c", "zz"} {
+				want := -1
+				for l := lvl; l >= 0; l-- {
+					if contains(levels[l], n) {
+						want = l
+						break
+					}
+				}
+				got := a.Component(n)
+				c.Count("nesting.lookups", 1)
+				c.Count("nesting.lookups."+round, 1)
+				if want == -1 {
+					if got != nil {
+						c.Violation("nesting:phantom:"+round, "lookup of an unregistered name returned a component", map[string]any{"levels": levels, "from": lvl, "name": n})
+					}
+					// MustComponent must panic
+					func() {
+						defer func() {
+							if recover() == nil {
+								c.Violation("nesting:must-no-panic:"+round, "MustComponent returned for an unregistered name", map[string]any{"levels": levels, "from": lvl, "name": n})
+							}
+						}()
+						a.MustComponent(n)
+					}()
+					continue
+				}
+				if got == nil || levelOf(got) != want || got.Name() != n {
+					gl := -1
+					if got != nil {
+						gl = levelOf(got)
+					}
+					c.Violation("nesting:resolution:"+round, "name resolved to the wrong container level (must be local first, then parents)",
+						map[string]any{"levels_registered_so_far": levels, "all_levels": nc.levels, "from": lvl, "name": n, "want_level": want, "got_level": gl})
+				}
+				if m := a.MustComponent(n); m != got {
+					c.Violation("nesting:must-differs:"+round, "MustComponent and Component disagree", map[string]any{"levels": levels, "from": lvl, "name": n})
+				}
+			}
+			// generic lookup by interface: nearest level holding "a"
+			wantA := -1
 			for l := lvl; l >= 0; l-- {
-				if contains(nc.levels[l], n) {
-					want = l
+				if contains(levels[l], "a") {
+					wantA = l
 					break
 				}
 			}
-			got := a.Component(n)
-			c.Count("nesting.lookups", 1)
-			if want == -1 {
-				if got != nil {
-					c.Violation("nesting:phantom", "lookup of an unregistered name returned a component", map[string]any{"levels": nc.levels, "from": lvl, "name": n})
+			ga, err := app.GetComponent[tagA](a)
+			if wantA == -1 {
+				if err == nil {
+					c.Violation("nesting:generic-phantom:"+round, "GetComponent found an interface nobody registered", map[string]any{"levels": levels, "from": lvl})
 				}
-				// MustComponent must panic
-				func() {
-					defer func() {
-						if recover() == nil {
-							c.Violation("nesting:must-no-panic", "MustComponent returned for an unregistered name", map[string]any{"levels": nc.levels, "from": lvl, "name": n})
-						}
-					}()
-					a.MustComponent(n)
-				}()
-				continue
+			} else if err != nil || ga.(*namedA).level != wantA {
+				c.Violation("nesting:generic-resolution:"+round, "GetComponent resolved to the wrong level", map[string]any{"levels": levels, "from": lvl, "want": wantA})
 			}
-			if got == nil || levelOf(got) != want || got.Name() != n {
-				gl := -1
-				if got != nil {
-					gl = levelOf(got)
-				}
-				c.Violation("nesting:resolution", "name resolved to the wrong container level (must be local first, then parents)",
-					map[string]any{"levels": nc.levels, "from": lvl, "name": n, "want_level": want, "got_level": gl})
-			}
-		}
-		// generic lookup by interface: nearest level holding "a"
-		wantA := -1
-		for l := lvl; l >= 0; l-- {
-			if contains(nc.levels[l], "a") {
-				wantA = l
-				break
-			}
-		}
-		ga, err := app.GetComponent[tagA](a)
-		if wantA == -1 {
-			if err == nil {
-				c.Violation("nesting:generic-phantom", "GetComponent found an interface nobody registered", map[string]any{"levels": nc.levels, "from": lvl})
-			}
-		} else if err != nil || ga.(*namedA).level != wantA {
-			c.Violation("nesting:generic-resolution", "GetComponent resolved to the wrong level", map[string]any{"levels": nc.levels, "from": lvl, "want": wantA})
 		}
 	}
+	checkLookups("first-round", regOrder)
+	for _, l := range later {
+		lvl, n := l[0].(int), l[1].(string)
+		register(lvl, n)
+		regOrder[lvl] = append(regOrder[lvl], n)
+	}
+	if len(later) > 0 {
+		c.Count("nesting.cases_with_registration_after_lookups", 1)
+	}
+	checkLookups("after-late-registration", regOrder)
 	// starting the innermost child initialises only its own components
 	inits = inits[:0]
 	last := len(apps) - 1
@@ -471,7 +503,7 @@ func runNesting(c *lib.Case) {
 		c.Violation("nesting:start-error", "child Start failed", err.Error())
 	}
 	var wantInits []string
-	for _, n := range nc.levels[last] {
+	for _, n := range regOrder[last] {
 		wantInits = append(wantInits, fmt.Sprintf("%s@%d", n, last))
 	}
 	if len(apps) > 1 && strings.Join(inits, ",") != strings.Join(wantInits, ",") {
